@@ -1450,3 +1450,14 @@ func contiguousUpTo(r *RepData, n int) bool {
 //@ func setOffsetInAdaptationSet
 //@   wiring
 //@   ensures  offsetInMs: err == nil ==> atoMS == int(1000 * cfg.AvailabilityTimeOffsetS)
+
+// createAudioSeg (C03, sample-interval bookkeeping; the mp4 sample copying is not under contract):
+// an interval list is extended only by the segment containing the start, by the NEXT VoD
+// segment (index i+1, from its first sample) or by segment 0 after the wrap; samples are repeated
+// to pad the loop only when the LAST VoD segment has been used up, by exactly the missing time;
+// an interval that is cut by the requested end ends at the sample index of that end.
+//@ func createAudioSeg
+//@   wiring
+//@   callsite append:sampleItvls requires nextSegmentFromItsStart: vararg0.endIdx == 0 && vararg0.nrFillSamples == 0 && ((len(sampleItvls) == 0 && vararg0.segIdx == i) || (vararg0.segIdx == i+1 && vararg0.startIdx == 0) || (vararg0.segIdx == 0 && vararg0.startIdx == 0))
+//@   store sampleItvls[len(sampleItvls) - 1].endIdx = requires endIndexWithinItsSegment: sampleItvls[len(sampleItvls)-1].endIdx == uint32((s.EndTime - s.StartTime) / sampleDur) || sampleItvls[len(sampleItvls)-1].endIdx == sampleItvls[len(sampleItvls)-1].startIdx + uint32((rec.audioInEnd - nextAudioStart) / sampleDur) || sampleItvls[len(sampleItvls)-1].endIdx == uint32((rec.audioInEndAfterWrap - s.StartTime) / sampleDur)
+//@   store sampleItvls[len(sampleItvls) - 1].nrFillSamples = requires padOnlyAfterLastSegment: i == lastIdx && nrFills == uint32((rec.audioInEnd - s.EndTime) / sampleDur)
